@@ -124,7 +124,8 @@ package pipeline
 //@   assigns everything
 //@   frame-assumed nothing
 //@   note ASSUMED frame (C13): decoding a mapping into a step it has just created writes that step and objects it allocates, and reads the source; no object that existed before the call is modified (ordered.Unmarshal is reflection-driven and has no proved frame)
-//@   ensures [nonstring] old(hk(o, "type") && !typeis(typeVal(o), string)) ==> ret == nil && err != nil && !typeis(err, *warning.Warning)
+//@   ensures [nonstring] old(hk(o, "type") && !typeis(typeVal(o), string)) ==>
+//@       typeis(ret, *UnknownStep) && typeis(err, *warning.Warning) && reports(err, ErrUnknownStepType)
 //@   ensures [t-command] old(hk(o, "type") && typeis(typeVal(o), string) && isCommandType(unbox(typeVal(o), string))) ==> usable(err) && (typeis(ret, *CommandStep) || typeis(ret, *UnknownStep))
 //@   ensures [t-wait]    old(hk(o, "type") && typeis(typeVal(o), string) && isWaitType(unbox(typeVal(o), string))) ==> usable(err) && (typeis(ret, *WaitStep) || typeis(ret, *UnknownStep))
 //@   ensures [t-input]   old(hk(o, "type") && typeis(typeVal(o), string) && isInputType(unbox(typeVal(o), string))) ==> usable(err) && (typeis(ret, *InputStep) || typeis(ret, *UnknownStep))
@@ -215,10 +216,11 @@ package pipeline
 //@       fresh(unbox(ret0, map[string][]string)) && len(unbox(ret0, map[string][]string)) == 0
 
 //@ func (MatrixAdjustmentWith).MarshalYAML
-//@   pure
 //@   assigns nothing
 //@   ensures [anon]  has(maw, "") && len(maw) == 1 ==> ret1 == nil && ret0 == box(string, maw[""])
-//@   ensures [named] !(has(maw, "") && len(maw) == 1) ==> ret1 == nil && ret0 == box(map[string]string, maw)
+//@   ensures [named] !(has(maw, "") && len(maw) == 1) && maw != nil ==> ret1 == nil && ret0 == box(map[string]string, maw)
+//@   ensures [nil]   maw == nil ==> ret1 == nil && typeis(ret0, map[string]string) && unbox(ret0, map[string]string) != nil &&
+//@       fresh(unbox(ret0, map[string]string)) && len(unbox(ret0, map[string]string)) == 0
 
 //@ func (*Matrix).MarshalYAML
 //@   requires m != nil
@@ -234,7 +236,7 @@ package pipeline
 //@ func (MatrixAdjustmentWith).MarshalJSON
 //@   assigns nothing
 //@   ensures [anon]  ret1 == nil && has(maw, "") && len(maw) == 1 ==> jsonOf(ret0, box(string, maw[""]))
-//@   ensures [named] ret1 == nil && !(has(maw, "") && len(maw) == 1) ==> jsonOf(ret0, box(map[string]string, maw))
+//@   ensures [named] ret1 == nil && !(has(maw, "") && len(maw) == 1) && maw != nil ==> jsonOf(ret0, box(map[string]string, maw))
 
 //@ func (*Matrix).MarshalJSON
 //@   requires m != nil
